@@ -390,3 +390,36 @@ Theorem C10_dmrg2_whole_run_lapack : forall (F : ofield) orth qr split dnorm sma
   (ens <> [] -> last ens (k0 (Cx F)) = denergy d L A (o_A H)).
 Proof. exact dmrg2_run_lapack. Qed.
 Print Assumptions C10_dmrg2_whole_run_lapack.
+
+(* Non-vacuity of C10_dmrg2_whole_run_lapack (Proofs/Link2Examples.v): the rational instance of Proofs/Sweeps2Example.v (L = 3, d = 2,
+   H = ZIZ + ZXI + XZI, bond dimensions 1-2-2-1, two sweeps) run with the REAL Krylov-based eigensolver, numiter = 1 (one Lanczos
+   vector: numpy.linalg.norm on tensors of norm one, answered exactly by the rational square root; eigh_tridiagonal on the 1 x 1
+   matrix [alpha_0] answered by w = (alpha_0), U = [[1]]; the solver returns the Rayleigh quotient and the normalised start tensor).
+   The run succeeds; every hypothesis except the semantic one on H (H >= lam) holds by evaluation: the LAPACK-level contracts of all
+   20 recorded calls (6 EIG2 on merged tensors of flattened length up to 16, 6 splits, 2 QR) by the boolean checker ldmrg2_okb, sound
+   by ldmrg2_okb_ok; Hermiticity of H by mpo_hermb on all 64 word pairs; the conclusions are non-trivial (energies 208201/390625). *)
+From PT Require Import Proofs.Link2Examples.
+Example C10_dmrg2_whole_run_lapack_nonvacuous :
+  match dmrg_twosite ex_orth ex_qr ex3_split ex1_keig ex3H ex3Psi 2 with
+  | Some (A, qD, ens, tr) =>
+      mpo_shapeb 2 [1; 2; 2; 1]%nat (o_A ex3H) && mps_shapeb 2 [1; 2; 2; 1]%nat (m_A (fst (ex_orth ex3Psi)))
+      && forallb right_isob (m_A (fst (ex_orth ex3Psi))) && Nat.leb 2 (length (o_A ex3H)) && mpo_hermb (o_A ex3H) 2
+      && ldmrg2_okb dnorm_ex ex_small ex1_deigh 1 ex_qr ex3_split (o_A ex3H) 2 (rev tr)
+      && Nat.eqb (length tr) 20 && Nat.eqb (length ens) 2
+      && Nat.eqb (length (filter (fun t => match c_kind (t_call t) with EIG2 => true | _ => false end) tr)) 6
+      && keqb CQ (dnorm2 2 3 A) (k1 CQ) && keqb CQ (last ens (k0 CQ)) (denergy 2 3 A (o_A ex3H))
+      && negb (keqb CQ (last ens (k0 CQ)) (k0 CQ)) && negb (list_eqb (fun a b => list_eqb mxeqb a b) A (m_A ex3Psi))
+  | None => false
+  end = true.
+Proof. vm_compute. reflexivity. Qed.
+(* ... and the theorem applies to it: every hypothesis but H >= lam discharged *)
+Theorem C10_dmrg2_whole_run_lapack_example : forall lam A qD ens tr,
+  dmrg_twosite ex_orth ex_qr ex3_split ex1_keig ex3H ex3Psi 2 = Some (A, qD, ens, tr) ->
+  bounded_below 2 (length (o_A ex3H)) (o_A ex3H) lam ->
+  let L := length (o_A ex3H) in
+  let E0 := denergy 2 L (m_A (fst (ex_orth ex3Psi))) (o_A ex3H) in
+  dnorm2 2 L A = k1 CQ /\ length ens = 2%nat /\
+  Forall (fun e => fle QcF lam (cre e) /\ fle QcF (cre e) (cre E0)) ens /\ noninc ens /\
+  (ens <> [] -> last ens (k0 CQ) = denergy 2 L A (o_A ex3H)).
+Proof. exact dmrg2_run_lapack_example. Qed.
+Print Assumptions C10_dmrg2_whole_run_lapack_example.
